@@ -609,7 +609,16 @@ GEN_REL = os.path.join("ALV", "Gen", "C01Src.lean")
 def regenerate(repo, lean_dir):
     """ rewrite lean/ALV/Gen/C01Src.lean; on a translation failure the last good file stays and the error is raised """
     path = os.path.join(lean_dir, GEN_REL)
-    text = translate(*sources(repo))
+    try:
+        text = translate(*sources(repo))
+    except Exception:
+        # the last good file = the committed one = the translation of the pinned source (and not what an earlier run on
+        # another scratch copy may have left on disk)
+        good = translate(FIXTURE_STREAM, FIXTURE_COMPAT, FIXTURE_MISC)
+        if not os.path.exists(path) or open(path).read() != good:
+            with open(path, "w") as f:
+                f.write(good)
+        raise
     old = open(path).read() if os.path.exists(path) else None
     if old != text:
         with open(path, "w") as f:
